@@ -130,6 +130,20 @@ start, and stamped on every header: ACK/WASK/WINS through the scratch header, PU
 theorem C04_wnd_truthful_flush (k : Kcp) (full : Bool) (now : U32) (hp : (flush k full now).panic = false) :
     ∀ o ∈ (flush k full now).outs, AllWnd (wndUnused k) o := flush_allWnd k full now hp
 
+/-- a forged acknowledgement whose `sn` is outside `[snd_una, snd_nxt)` is ignored altogether -/
+theorem C04_forged_ack_ignored (k : Kcp) (sn ts : U32)
+    (h : itimediff sn k.snd_una < 0 ∨ itimediff sn k.snd_nxt ≥ 0) :
+    parseAck k sn = k ∧ parseFastack k sn ts = (k, false) := by
+  unfold parseAck parseFastack
+  rw [if_pos h, if_pos h]
+  exact ⟨rfl, rfl⟩
+
+/-- a forged `una` can only remove a prefix of `snd_buf` (and `shrink_buf` re-establishes `snd_una`) -/
+theorem C04_forged_una_prefix (k : Kcp) (una : U32) :
+    ∃ c, c ≤ k.snd_buf.length ∧ (shrinkBuf (parseUna k una).1).snd_buf = k.snd_buf.drop c ∧
+      (shrinkBuf (parseUna k una).1).snd_nxt = k.snd_nxt :=
+  ⟨unaCount una k.snd_buf, unaCount_le _ _, shrinkUna_buf k una, shrinkUna_nxt k una⟩
+
 /-! ### 5. admission rule -/
 
 /-- phase 4, one segment: the head of `snd_queue` receives the sequence number `nxt` ONLY in the branch
@@ -283,6 +297,28 @@ example :
         x.snd_una = (flush (run (start 9 0 0) slOps1) true 1000).k.snd_una)
       (flush (run (start 9 0 0) slOps1) true 1000).k frOps2 ∧
     (run (flush (run (start 9 0 0) slOps1) true 1000).k frOps2).snd_queue.length = 2 := by decide
+
+/-- `cwnd` is touched by nothing but `Input` and the flushes (`flush`, `Update`) -/
+theorem C04_cwnd_changes_only (k : Kcp) (op : Op) (h : (step k op).cwnd ≠ k.cwnd) :
+    (∃ d reg nd now, op = .input d reg nd now) ∨ (∃ full now, op = .flush full now) ∨ (∃ now, op = .update now) := by
+  cases op with
+  | input d reg nd now => exact Or.inl ⟨d, reg, nd, now, rfl⟩
+  | flush full now => exact Or.inr (Or.inl ⟨full, now, rfl⟩)
+  | update now => exact Or.inr (Or.inr ⟨now, rfl⟩)
+  | send b => exfalso; apply h; obtain ⟨q, e⟩ := send_shape k b; show (send k b).k.cwnd = _; rw [e]
+  | recv n => exfalso; apply h; obtain ⟨q, b, x, p, e⟩ := recv_shape k n; show (recv k n).k.cwnd = _; rw [e]
+  | setMtu m => exfalso; apply h; obtain ⟨a, b, c, e⟩ := setMtu_shape k m; show (setMtu k m).1.cwnd = _; rw [e]
+  | noDelay a b c d =>
+    exfalso; apply h; obtain ⟨_, _, _, _, _, e⟩ := noDelay_shape k a b c d; show (noDelay k a b c d).cwnd = _; rw [e]
+  | wndSize s r => exfalso; apply h; obtain ⟨_, _, e⟩ := wndSize_shape k s r; show (wndSize k s r).cwnd = _; rw [e]
+  | setStream v => exact absurd rfl h
+
+/-- … and inside `Input` the parse loop and the RTT update leave it alone: only the ack-driven update
+(which needs `snd_una` to have advanced) and phase 6 of a flush write it -/
+theorem C04_cwnd_input_loop (regular : Bool) (fuel : Nat) (data : Bytes) (st : InLoop) :
+    (inputLoop regular fuel data st).k.cwnd = st.k.cwnd := by
+  obtain ⟨_, _, _, _, _, _, _, _, e⟩ := inputLoop_shape regular fuel data st
+  rw [e]
 
 theorem C04_cwnd_unchanged_without_advance (k : Kcp) (oldUna : U32) (h : ¬ itimediff k.snd_una oldUna > 0) :
     cwndOnAck k oldUna = k := by
